@@ -22,7 +22,7 @@ static uint32_t u8_seq(const uint8_t *p, uint32_t avail, uint32_t *cp) {
 /* decoder contract (Qt 5.15 QUtf8::convertToUnicode, stateless): well-formed sequences -> UTF-16; every byte that does not
    start a well-formed complete sequence -> one U+FFFD and decoding resumes at the next byte; a UTF-8 BOM at the very start
    of the input of ONE CALL is skipped. */
-static uint32_t vpl_u8_decode(uint16_t *dst, const uint8_t *src, uint32_t n, uint32_t hint) {
+static uint32_t vpl_u8_decode(QAD *dq, const uint8_t *src, uint32_t n, uint32_t hint) { uint16_t *dst = C03_SD(dq);
   uint32_t o = 0, skip = 0;
   if (n >= 3 && src[0] == 0xEF && src[1] == 0xBB && src[2] == 0xBF) skip = 3;
   for (uint32_t i = 0; i < hint; i++) { if (i >= n) break; if (skip) { skip--; continue; }
@@ -39,13 +39,15 @@ static uint32_t vpl_c03_strlen(const uint8_t *p) { uint32_t n = 0; for (; n <= C
 size_t strlen(const char *s) { return vpl_c03_strlen((const uint8_t*)s); }
 void _ZN7QString15fromUtf8_helperEPKci(char *ret, char *p, uint32_t n) { if (!p) { *(QAD**)ret = SHARED_NULL; return; } if ((int32_t)n < 0) n = vpl_c03_strlen((uint8_t*)p);
   ASSERT(n <= C03_MAXBYTES, "fromUtf8 model: input longer than the bound of this harness");
-  uint32_t h = c03_hint8((uint8_t*)p); if (h > C03_MAXBYTES) h = C03_MAXBYTES; QAD *d = qs_new(0, h); uint32_t o = vpl_u8_decode(qs_chars(d), (uint8_t*)p, n, h); d->f1 = o; *(QAD**)ret = d; }
+  uint32_t h = c03_hint8((uint8_t*)p); if (h > C03_MAXBYTES) h = C03_MAXBYTES; QAD *d = qs_new(0, h); uint32_t o = vpl_u8_decode(d, (uint8_t*)p, n, h); d->f1 = o; *(QAD**)ret = d; }
 #undef _ZN10QByteArray6appendERKS_
 #undef _ZNK10QByteArray4leftEi
-static void vpl_c03_copy8(uint8_t *d, const uint8_t *s, uint32_t n) { for (uint32_t i = 0; i < C03_MAXBYTES; i++) { if (i >= n) break; d[i] = s[i]; } }
+#define C03_BD(d) (((struct qb*)(d))->data)
+#define C03_SD(d) (((struct qs*)(d))->data)
 /* [from,to) of b followed by [0,n2) of c as a fresh block */
-static QAD *c03_cat(QAD *b, uint32_t from, uint32_t to, QAD *c, uint32_t n2) { uint32_t n1 = to - from; ASSERT(n1 + n2 <= C03_MAXBYTES, "QByteArray model: longer than the bound of this harness"); QAD *d = qb_new(n1 + n2, C03_MAXBYTES);
-  vpl_c03_copy8(qb_bytes(d), qb_bytes(b) + from, n1); if (c) vpl_c03_copy8(qb_bytes(d) + n1, qb_bytes(c), n2); qb_bytes(d)[n1 + n2] = 0; return d; }
+static void vpl_c03_cat8(QAD *d, const uint8_t *a, uint32_t n1, const uint8_t *c, uint32_t n2) { for (uint32_t i = 0; i <= C03_MAXBYTES; i++) { C03_BD(d)[i] = i < n1 ? a[i] : (c && i < n1 + n2 ? c[i - n1] : 0); } }
+static QAD *c03_cat(QAD *b, uint32_t from, uint32_t to, QAD *c, uint32_t n2) { uint32_t n1 = to - from; ASSERT(n1 + n2 <= C03_MAXBYTES, "QByteArray model: longer than the bound of this harness"); QAD *d = qb_new(0, C03_MAXBYTES); d->f1 = n1 + n2;
+  vpl_c03_cat8(d, qb_bytes(b) + from, n1, c ? qb_bytes(c) : 0, n2); return d; }
 char* _ZN10QByteArray6appendERKS_(char *self, char *o) { QAD *a = *(QAD**)self, *b = *(QAD**)o; *(QAD**)self = c03_cat(a, 0, a->f1, b, b->f1); return self; }
 void _ZNK10QByteArray4leftEi(char *ret, char *self, uint32_t n) { QAD *o = *(QAD**)self; if ((int32_t)n < 0) n = 0; if (n > o->f1) n = o->f1; *(QAD**)ret = c03_cat(o, 0, n, 0, 0); }
 char* _ZN10QByteArray6removeEii(char *self, uint32_t pos, uint32_t len) { QAD *o = *(QAD**)self; if ((int32_t)len <= 0 || pos >= o->f1) return self; if (len > o->f1 - pos) len = o->f1 - pos;
@@ -66,9 +68,10 @@ uint8_t vp_c03_char_boundary(char *ba, uint32_t k) { QAD *d = *(QAD**)ba; if (k 
 #define C03_TCAP 40            /* longest text any model loop has to look at (asserted) */
 #endif
 /* ---- flat copies with constant loop bounds (all strings of this harness are <= C03_TCAP units) ---- */
-static void vpl_t_copy(uint16_t *d, const uint16_t *s, uint32_t n) { for (uint32_t i = 0; i < C03_TCAP; i++) { if (i >= n) break; d[i] = s[i]; } }
-static QAD *c03_qs(const uint16_t *a, uint32_t na, const uint16_t *b, uint32_t nb) { ASSERT(na + nb <= C03_TCAP && na + nb <= QS_CAP, "text model: string longer than the bound of this harness");
-  QAD *d = qs_new(na + nb, C03_TCAP); vpl_t_copy(qs_chars(d), a, na); if (b) vpl_t_copy(qs_chars(d) + na, b, nb); return d; }
+/* d = a[0..na) ++ b[0..nb): every store goes to a constant index of the typed member */
+static void vpl_t_cat(QAD *d, const uint16_t *a, uint32_t na, const uint16_t *b, uint32_t nb) { for (uint32_t i = 0; i < C03_TCAP; i++) { if (i >= na + nb) break; C03_SD(d)[i] = i < na ? a[i] : b[i - na]; } }
+static QAD *c03_qs(const uint16_t *a, uint32_t na, const uint16_t *b, uint32_t nb) { if (!b) nb = 0; ASSERT(na + nb <= C03_TCAP && na + nb <= QS_CAP, "text model: string longer than the bound of this harness");
+  QAD *d = qs_new(0, C03_TCAP); d->f1 = na + nb; vpl_t_cat(d, a, na, b ? b : a, nb); return d; }
 
 #undef _ZN7QString6appendERKS_
 char* _ZN7QString6appendERKS_(char *self, char *o) { QAD *a = *(QAD**)self, *b = *(QAD**)o; *(QAD**)self = c03_qs(qs_chars(a), a->f1, qs_chars(b), b->f1); return self; }
